@@ -38,6 +38,7 @@ DESIGN_REF = "DESIGN.md §2.2-2.3"
 EXHAUSTIVE = True
 
 CAP = c11.CAP
+CAP_UNPRUNED = {"quick": 20000, "thorough": 3000}  # per fault: the unpruned run is only a cross-check of the pruned complete one
 REAL_REPLAYS = {"quick": 1, "thorough": 2}
 
 
@@ -45,6 +46,8 @@ def bounds(tier):
     b = c11.bounds(tier)
     b["deviation_bound_unpruned"] = 2 if tier == "quick" else 3
     b["max_simultaneous_faults"] = 1 if tier == "quick" else 2
+    b["exec_cap_per_unpruned_exploration"] = CAP_UNPRUNED[tier]
+    b["configs"] = len({s_["i"] for s_ in plan_virtual(tier, 0)})
     return b
 
 
@@ -65,10 +68,10 @@ def faults_for(c, tier, nops=None):
             for k in range(recs + 1):
                 single.append([{"w": w, "k": k, "code": -9, "lock": True}])
     out = list(single)
-    if tier == "thorough" and rc.n_workers(c) >= 2 and c["nrec"] <= 4:
+    if tier == "thorough" and 2 <= rc.n_workers(c) <= 3 and c["nrec"] <= 4:
         for a in single:
             for b in single:
-                if a[0]["w"] < b[0]["w"] and a[0]["code"] == -9 and b[0]["code"] == -9:
+                if a[0]["w"] < b[0]["w"] and a[0]["code"] == -9 and b[0]["code"] == -9 and not (a[0].get("lock") and b[0].get("lock")):
                     out.append([a[0], b[0]])
     return out
 
@@ -82,12 +85,16 @@ def plan_virtual(tier, seed):
     if tier == "quick":
         # four one-record workers x 8 fault points each are left to the thorough tier (the three-worker configurations stay)
         cs = [c for c in cs if not (c["nrec"] == 4 and c["batch"] == 1)]
+    else:
+        # three concurrent workers with three events each (about 85 000 executions per fault, 27 faults) are left to C11,
+        # which explores that configuration without the fault dimension
+        cs = [c for c in cs if min(c["cores"], rc.n_workers(c)) * (min(c["batch"], c["nrec"]) + 1) <= 6]
     # the heaviest configurations first, so that the pool stays busy
     cs.sort(key=lambda c: -(rc.n_workers(c) * (c["nrec"] + 2) * (3 if c.get("long") else 1)))
     out = []
     for i, c in enumerate(cs):
         # the fault list of a configuration with concurrent workers is split over several shards
-        parts = 4 if (c["cores"] >= 2 and rc.n_workers(c) >= 2 and not c.get("pipe")) else 1
+        parts = (4 if tier == "quick" else 16) if (c["cores"] >= 2 and rc.n_workers(c) >= 2 and not c.get("pipe")) else 1
         for j in range(parts):
             out.append({"config": c, "i": i, "part": j, "parts": parts})
     return out
@@ -208,7 +215,7 @@ def run_shard(spec, tier, scratch):
     for fault in faults_for(c, tier, nops)[spec.get("part", 0) :: spec.get("parts", 1)]:
         r = c11.explore_config(
             res, c, scratch, tier, fault=fault, judge_fn=lambda x: judge(x, c["nrec"], fault), tag="C13",
-            dev_bound=bounds(tier)["deviation_bound_unpruned"], budget=budget,
+            dev_bound=bounds(tier)["deviation_bound_unpruned"], budget=budget, cap_unpruned=CAP_UNPRUNED[tier],
         )
         res.count("faults")
         if r is not None:
@@ -232,6 +239,7 @@ def finalize(results, tier):
             "traces_validated_against_impl": st.get("traces_validated_against_impl", 0),
             "executions_with_timeout": st.get("executions_with_timeout", 0),
             "explorations_capped": st.get("explorations_capped", 0),
+            "unpruned_cross_checks_capped": st.get("unpruned_cross_checks_capped", 0),
         }
     }
     out["coverage"]["real_process_fault_runs"] = st.get("real_process_fault_runs", 0)
